@@ -451,9 +451,10 @@ func runCheck(spec *PropSpec, tier string) int {
 		if n < 1 {
 			n = 1
 		}
-		chunks := int(float64(nw)*p.Share + 0.5)
-		if chunks < 1 {
-			chunks = 1
+		// more jobs than workers: parts with slow runs then spread over all workers
+		chunks := nw
+		if len(parts) > 1 {
+			chunks = 2 * nw
 		}
 		if chunks > n {
 			chunks = n
